@@ -98,7 +98,16 @@ def _convert_cell(case, ctx):
     if case["cls"] in ("Samples", "SMCSamples") and not weighted:
         kw["log_evidence"] = -7.25
         kw["log_evidence_error"] = 0.125
-    s = C(x=x, parameters=params, xp=xs, dtype=env.native_dtype(src, case["width"]), **kw)
+    if case.get("attach_later"):
+        # object history: the set is converted once while it only holds x, then the densities are assigned (as the samplers do)
+        later = {f: kw.pop(f) for f in list(case["fields"])}
+        s = C(x=x, parameters=params, xp=xs, dtype=env.native_dtype(src, case["width"]), **kw)
+        s.to_numpy()
+        s.to_namespace(xd)
+        for f, v in later.items():
+            setattr(s, f, s.array_to_namespace(v))
+    else:
+        s = C(x=x, parameters=params, xp=xs, dtype=env.native_dtype(src, case["width"]), **kw)
     carried = None
     if weighted and case.get("selection"):
         # a selection of a weighted set carries its parent's evidence (it is not the evidence of the selected rows)
@@ -226,6 +235,9 @@ def extra(tier, ctx, seed):
         n_conv += 1
         if cls == "Samples" and len(fields) == 3 and route != "from_samples":
             ctx.cell(dict(case, selection=True, special=False), _convert_cell)
+            n_conv += 1
+        if len(fields) == 3 and route != "from_samples" and req == "none":
+            ctx.cell(dict(case, attach_later=True), _convert_cell)
             n_conv += 1
     n_help = 0
     kinds = sorted({k for k, _ in _spellings()})
